@@ -203,6 +203,17 @@ func checkCompact(ft fataler, inst string, data []byte) (bool, int) {
 	}
 	r := bytes.NewReader(data)
 	d, err := in.NewDigestFromCompactBinary(r)
+	if !compactIsReference() {
+		// Unknown layout: totality, and whatever is accepted is a
+		// well-formed digest that re-encodes and re-parses to itself.
+		if err != nil {
+			return false, 0
+		}
+		if d2, err := in.NewDigestFromCompactBinary(bytes.NewReader(d.GetCompactBinary())); err != nil || d2 != d {
+			ft.Fatalf("compact binary %x parsed as %s; re-encoded %x parses as %s, %v", data, describe(d), d.GetCompactBinary(), describe(d2), err)
+		}
+		return true, exerciseDigest(ft, d, fixedUUID)
+	}
 	if (err == nil) != want {
 		ft.Fatalf("NewDigestFromCompactBinary(%x): %s, error %v, but reference says valid=%v", data, describe(d), err, want)
 	}
@@ -320,6 +331,9 @@ func TestC20Arbitrary(t *testing.T) {
 
 		hb, _ := hex.DecodeString(s.hash)
 		bin := binary.AppendVarint(append([]byte{byte(s.fn)}, hb...), s.size)
+		if !compactIsReference() {
+			bin = s.withComps(nil).mk(t).GetCompactBinary()
+		}
 		for i := 0; i < edits; i++ {
 			switch rapid.IntRange(0, 4).Draw(t, "bin/op") {
 			case 0:
